@@ -66,7 +66,7 @@ PROPS = {
  'C10': dict(funcs=SRV_LIFE, access='ModbusServer.'),
  'C11': dict(funcs=SRV_LIFE + SRV_SESSION + TCPT, access='ModbusServer.'),
  'C12': dict(funcs=['tcpTransport.readMBAPFrame', 'tcpTransport.readResponse', 'tcpTransport.ReadRequest', 'rtuTransport.readRTUFrame', 'udpSockWrapper.Read', 'newUDPSockWrapper', 'ModbusServer.handleTransport', 'discard'], consts=LEN_CONSTS),
- 'C13': dict(funcs=['tcpTransport.readMBAPFrame', 'tcpTransport.readResponse', 'tcpTransport.ReadRequest', 'rtuTransport.readRTUFrame', 'ModbusServer.handleTransport', 'ModbusServer.handleTCPClient', 'ModbusClient.Open', 'ModbusClient.Close', 'newTCPTransport', 'newRTUTransport'], consts=LEN_CONSTS),
+ 'C13': dict(funcs=['tcpTransport.readMBAPFrame', 'tcpTransport.readResponse', 'tcpTransport.ReadRequest', 'rtuTransport.readRTUFrame', 'ModbusServer.handleTransport', 'ModbusServer.handleTCPClient', 'ModbusServer.acceptTCPClients', 'ModbusClient.Open', 'ModbusClient.Close', 'newTCPTransport', 'newRTUTransport'], consts=LEN_CONSTS),
  'C14': dict(funcs=['ModbusClient.Open', 'NewClient', 'NewServer', 'ModbusServer.startTLS', 'ModbusServer.handleTCPClient'] + [k for k in fps if k.startswith('tlsSockWrapper.')] + ['newTLSSockWrapper'], tls=True),
  'C15': dict(funcs=['ModbusServer.extractRole', 'ModbusServer.startTLS', 'ModbusServer.handleTCPClient', 'var.modbusRoleOID']),
  'C16': dict(funcs=['NewClient', 'NewServer', 'ModbusClient.Open', 'ModbusClient.SetEncoding', 'newRTUTransport', 'serialPortWrapper.Open', 'newSerialPortWrapper', 'ModbusServer.Start'],
@@ -74,7 +74,7 @@ PROPS = {
  'C17': dict(funcs=ENC, consts=ENC_CONSTS),
  'C18': dict(funcs=CLIENT_PUBLIC + CLIENT_HELPERS + ENC + ['tcpTransport.assembleMBAPFrame', 'tcpTransport.readMBAPFrame', 'rtuTransport.assembleRTUFrame', 'rtuTransport.readRTUFrame']),
  'C19': dict(funcs=['newRTUTransport', 'serialCharTime', 'rtuTransport.ExecuteRequest', 'rtuTransport.WriteResponse', 'discard']),
- 'C20': dict(funcs=CLI + ['ModbusClient.readBools', 'ModbusClient.readRegisters', 'ModbusClient.writeRegisters', 'ModbusClient.WriteCoil', 'ModbusClient.WriteRegister', 'NewClient'], consts=FC_CONSTS),
+ 'C20': dict(funcs=CLI + CLIENT_PUBLIC + CLIENT_HELPERS + ENC + ['NewClient', 'ModbusClient.SetEncoding', 'ModbusClient.SetUnitId'], consts=FC_CONSTS + ENC_CONSTS),
 }
 
 def lstr(s):
